@@ -27,6 +27,8 @@ POOL_Q = [
     (N(0.1), 'n:frac'), (N(3), 'n'), (N(1e200), 'n:huge'), (N(1e-200), 'n:tiny'), (N(-1e200), 'n:huge'),
     (T('3'), 't:num'), (T(' 3 '), 't:pad'), (T('-2.5'), 't:num'), (T('abc'), 't:alpha'), (T('ABC'), 't:alpha'),
     (T(''), 't:empty'), (T('1E+2'), 't:num'),
+    # text that Python's float() reads but Excel does not, and an exponent that overflows a double
+    (T('inf'), 't:pyfloat'), (T('nan'), 't:pyfloat'), (T('1_0'), 't:pyfloat'), (T('-Infinity'), 't:pyfloat'), (T('1E+999'), 't:overflow'),
     (B(True), 'b'), (B(False), 'b'), (BLANK, 'blank'),
 ] + [(e, 'e') for e in ERRV]
 EXTRA_T = [
